@@ -275,10 +275,51 @@ def gen_conv():
     out += "Definition standard_namespaces : list (list N * list N) := " + clist(nrows, lambda r: f"({cstr(r[0])}, {cstr(r[1])})") + ".\n"
 
     # ---- namespaces.py ------------------------------------------------------------------
-    punct = ns.const("NCNAME_PUNCTUATION")
-    if not (isinstance(punct, set) and all(isinstance(x, str) and len(x) == 1 for x in punct)):
-        _die("NCNAME_PUNCTUATION shape")
-    out += "Definition ncname_punctuation : list N := " + clist(sorted(ord(x) for x in punct), str) + ".\n"
+    # is_ncname: NCNAME_REGEX = re.compile(f"[{NCNAME_START}][{NCNAME_START}...]*"), used with fullmatch
+    start_txt = ns.const("NCNAME_START")
+    if not isinstance(start_txt, str):
+        _die("NCNAME_START shape")
+    node = ns.const_node("NCNAME_REGEX")
+    if not (isinstance(node, ast.Call) and isinstance(node.func, ast.Attribute) and node.func.attr == "compile"
+            and len(node.args) == 1 and not node.keywords and isinstance(node.args[0], ast.JoinedStr)):
+        _die("NCNAME_REGEX shape")
+    pat = ""
+    for part in node.args[0].values:
+        if isinstance(part, ast.Constant) and isinstance(part.value, str):
+            pat += part.value
+        elif (isinstance(part, ast.FormattedValue) and isinstance(part.value, ast.Name) and part.value.id == "NCNAME_START"
+              and part.conversion == -1 and part.format_spec is None):
+            pat += start_txt
+        else:
+            _die("NCNAME_REGEX: unexpected f-string part")
+    import re as _re
+    c = _re._constants
+    tree = list(_re._parser.parse(pat))
+
+    def cls(node):
+        if node[0] != c.IN:
+            _die("NCNAME_REGEX: expected a character class")
+        out_ = []
+        for k, v in node[1]:
+            if k == c.RANGE:
+                out_.append((v[0], v[1]))
+            elif k == c.LITERAL:
+                out_.append((v, v))
+            else:
+                _die("NCNAME_REGEX: unsupported class item")
+        return out_
+    if not (len(tree) == 2 and tree[1][0] == c.MAX_REPEAT and tree[1][1][0] == 0 and tree[1][1][1] == c.MAXREPEAT
+            and len(list(tree[1][1][2])) == 1):
+        _die("NCNAME_REGEX: expected [start][char]*")
+    out += f"Definition ncname_start_ranges : list (N * N) := {_cranges(cls(tree[0]))}.\n"
+    out += f"Definition ncname_char_ranges : list (N * N) := {_cranges(cls(list(tree[1][1][2])[0]))}.\n"
+    fn = ns.func("is_ncname")
+    body = _strip_doc(fn.body)
+    fm = [n for n in ast.walk(fn) if isinstance(n, ast.Attribute) and n.attr == "fullmatch" and isinstance(n.value, ast.Name)
+          and n.value.id == "NCNAME_REGEX"]
+    if not (len(body) == 1 and isinstance(body[0], ast.Return) and len(fm) == 1
+            and any(isinstance(n, ast.BoolOp) and isinstance(n.op, ast.And) for n in ast.walk(fn))):
+        _die("is_ncname: expected `return bool(name and NCNAME_REGEX.fullmatch(name))`")
     node = ns.const_node("URI_REGEX")
     if not (isinstance(node, ast.Call) and isinstance(node.func, ast.Attribute) and node.func.attr == "compile"
             and len(node.args) == 1 and not node.keywords):
@@ -322,7 +363,6 @@ def gen_conv():
     import decimal
     import re
     out += f"(* interpreter {sys.version.split()[0]} *)\n"
-    out += f"Definition py_alpha_ranges : list (N * N) := {_cranges(_ranges(str.isalpha))}.\n"
     sp_re = [c for c in range(0x110000) if re.fullmatch(r"\s", chr(c))]
     if sp_re != [c for c in range(0x110000) if chr(c).isspace()]:
         _die("re \\s and str.isspace disagree on this interpreter")
